@@ -488,7 +488,10 @@ func (env *ExecEnv) split(f *field) []*field {
 					default:
 						ws = false
 					}
-					i = j + utf8.RuneLen(r)
+					// the width of what was decoded at j: an invalid
+					// byte is one byte wide, not utf8.RuneLen(r)
+					_, w := utf8.DecodeRuneInString(s[j:])
+					i = j + w
 				} else {
 					ws = false
 				}
